@@ -58,7 +58,7 @@ def elements(field, seed, tier):
         return alpha.fq2_alphabet(seed, 2 if tier == "quick" else 3)
     if field == "fq6":
         return alpha.fq6_alphabet(seed, limit=24 if tier == "quick" else 64)
-    al = alpha.fq12_alphabet(seed, limit=24 if tier == "quick" else 160)
+    al = alpha.fq12_alphabet(seed, limit=24 if tier == "quick" else 4096)      # thorough: EVERY zero/non-zero support pattern
     # embedded subfield elements
     f2s = alpha.fq2_alphabet(seed, 1)
     al += [ref.f12_from_f2(a) for a in f2s[:: 7]]
@@ -235,8 +235,9 @@ def run_shard(ctx, shard):
     part, parts = shard["part"], shard["parts"]
     if op in ("add", "subtract", "multiply", "equal"):
         S = E
-        if field == "fq12" and op == "multiply" and len(S) > 120:
-            S = S[:120]
+        if field == "fq12" and len(S) > 120:
+            # binary operations: all ordered pairs over a prefix (sparse and dense patterns alternate in the alphabet order)
+            S = S[:120] if ctx.tier == "quick" else S[:1200]
         pairs = list(itertools.product(S, S))[part::parts]
         if cfg != "asm":
             pairs = pairs[::3]       # the tower code is shared; the base field differs and is covered by C02/C03
@@ -248,7 +249,7 @@ def run_shard(ctx, shard):
         for a in E[part::parts]:
             emit({"cfg": cfg, "field": field, "op": "unary", "a": hexl(a)}, not triv(a), field + ":unary")
     elif op == "frobenius":
-        S = E if field != "fq12" else E[:: (3 if ctx.tier == "quick" else 2)]
+        S = E if field != "fq12" else (E[::3] if ctx.tier == "quick" else E[:: max(2, len(E) // 400)])
         for a in S[part::parts]:
             emit({"cfg": cfg, "field": field, "op": "frobenius", "a": hexl(a)}, not triv(a), field + ":frobenius")
             if ctx.out_of_time():
